@@ -23,7 +23,12 @@ OLD = {
                  "install(prog)\n"
                  "test(prog)\n"
                  "command('show', cmd=['rec', 'SHOW', argv.name])\n"
-                 "pkg_config('p', version='1.0')\n",
+                 "pkg_config('p', version='1.0')\n"
+                 # a fault in a follow-up attempt: the script raises (after the immediate files
+                 # were rewritten) while a flag file exists; the flag is not a regeneration input
+                 "import os as _os\n"
+                 "if _os.path.exists(_os.path.join(env.srcdir.string(), 'FAIL.flag')):\n"
+                 "    raise RuntimeError('injected script failure')\n",
     'options.bfg': "argument('name', default='old')\n",
     'src/a.c': 'int a;\n',
     'src/b.c': 'int b;\n',
@@ -57,6 +62,7 @@ SCENARIOS = {
     'remove-matching-file': edit_remove_file,
 }
 ACTIONS = ['tool', 'lazy', 'full']
+FAULTY = 'lazy-fails'      # a further attempt that itself fails (script raises), then is retried
 
 
 def build_file(backend):
@@ -72,6 +78,14 @@ def declared_outputs(bld, backend):
 
 
 def do_action(pr, action):
+    if action == FAULTY:
+        flag = os.path.join(pr.src, 'FAIL.flag')
+        open(flag, 'w').close()
+        try:
+            r = bfg.regenerate(pr.bld, pr.env, lazy=True, inproc=True)
+        finally:
+            os.remove(flag)
+        return r.rc, r.err
     if action == 'tool':
         rc, out, recs = pr.run([])
         return rc, out
@@ -121,9 +135,10 @@ def _scenario_shard(arg):
         if old == ref:
             raise core.HarnessError('scenario %s does not change the build files' % scen)
     stats['points'] = len(points)
-    seqs = [(a,) for a in ACTIONS]
+    seqs = [(a,) for a in ACTIONS] + [(FAULTY, a) for a in ACTIONS]
     if maxlen >= 2:
         seqs += list(itertools.product(ACTIONS, repeat=2))
+        seqs += [(a, FAULTY, b) for a in ('lazy',) for b in ACTIONS]
     crashed = os.path.join(root, 'crashed')
     for k, (kind, path) in enumerate(points):
         proj.restore(pre, pr.root)
@@ -137,22 +152,29 @@ def _scenario_shard(arg):
             proj.restore(crashed, pr.root)
             stats['recoveries'] += 1
             rcs = []
-            for a in seq:
+            stale_after = None
+            for i, a in enumerate(seq):
                 rc, out = do_action(pr, a)
                 rcs.append(rc)
-                if rc != 0:
+                if rc == 0 and a == FAULTY:
+                    # the injected failure was not reached (regeneration legitimately skipped)
+                    pass
+                # an attempt that REPORTS SUCCESS must have brought the files up to date
+                if rc == 0 and declared_outputs(pr.bld, backend) != ref:
+                    stale_after = i
                     break
-            if any(rcs):
+            if stale_after is None and any(rcs):
                 outcome('failed-visibly')
                 continue
             now = declared_outputs(pr.bld, backend)
-            if now == ref:
+            if stale_after is None and now == ref:
                 # and a following build really uses the new project
                 rc, out, _ = pr.run([])
                 if rc != 0:
                     viol.append(('build-after-recovery-fails', backend, scen, kind, path, seq, out[-200:]))
                 outcome('recovered')
                 continue
+            seq = seq[:stale_after + 1] if stale_after is not None else seq
             outcome('violation')
             diff = [n for n in ref if now[n] != ref[n]]
             what = []
